@@ -4,6 +4,7 @@ import ast
 from sa.cfg import cfg_of
 from sa.program import dotted, norm, own_nodes, const_str
 from sa.util import (ancestors, cfg_node_of, enclosing_loops, in_finally, in_handler, self_calls_in, stmt_text, guards_at)
+from sa.effects import attr_writes
 from . import shared
 from .roles import VIEWS, roles
 
@@ -130,6 +131,7 @@ def run(ctx):
     ok = any(".stop()" in "\n".join(norm(s) for s in t.finalbody) and "_actors.pop" in "\n".join(norm(s) for s in t.finalbody) for t in tries)
     c.ob("R4", ok, rn, "sync-child-teardown-in-finally", "the sync actor thread stops and removes its child in a finally" if ok else
          "the sync actor thread does not tear its child down in a finally", rn.node)
+    handle_before_start(ctx, "R5")
     ct = p.method("Interpreter", "_cancel_state_tasks")
     ok = any(isinstance(x, ast.Await) and "cancel_by_owner" in norm(x.value) for x in own_nodes(ct.node))
     c.ob("R4", ok, ct, "exit-awaits-cancellation", "state exit awaits the cancellation of the state's tasks" if ok else
@@ -138,3 +140,53 @@ def run(ctx):
     ok = any(isinstance(x, ast.Await) and "gather" in norm(x.value) for x in own_nodes(tm.node))
     c.ob("R4", ok, tm, "cancel-by-owner-awaits", "cancel_by_owner waits for the cancelled tasks to finish" if ok else
          "cancel_by_owner returns before the cancelled tasks have finished", tm.node)
+
+
+def _reaches_child_start(ctx, view, f, call) -> bool:
+    """the call starts a child interpreter: ``<child>.start()`` itself or a self-helper whose body does it."""
+    fn = call.func
+    if isinstance(fn, ast.Attribute) and fn.attr == "start" and dotted(fn.value) in ("child", "child_interpreter", "actor"):
+        return True
+    for s in ctx.r.callsites(f, view):
+        if s.call is call and s.recv == "self":
+            for t in s.targets:
+                for x in own_nodes(t.node):
+                    if isinstance(x, ast.Call) and isinstance(x.func, ast.Attribute) and x.func.attr == "start" and \
+                            dotted(x.func.value) in ("child", "child_interpreter", "actor"):
+                        return True
+    return False
+
+
+def handle_before_start(ctx, rid="R5"):
+    """The task that manages an invoked child machine tears the child down in its finally / cancellation
+    handler through a local handle and through self._actors.  Both must be in place *before* the child's
+    start() is awaited: a cancellation that arrives while start() is suspended otherwise finds nothing to stop."""
+    c, p = ctx.c, ctx.p
+    f = p.method("Interpreter", "_spawn_and_manage_actor")
+    g = cfg_of(f.node)
+    # teardown handle: receiver of .stop() inside the finally / CancelledError handler
+    handles = set()
+    for x in own_nodes(f.node):
+        if isinstance(x, ast.Call) and isinstance(x.func, ast.Attribute) and x.func.attr == "stop" and isinstance(x.func.value, ast.Name):
+            if in_finally(f, x) is not None or in_handler(f, x) is not None:
+                handles.add(x.func.value.id)
+    c.need(handles, "teardown handle of the invoked child (receiver of .stop() in finally / handler)")
+    starts = [x for x in own_nodes(f.node) if isinstance(x, ast.Call) and _reaches_child_start(ctx, "Interpreter", f, x)]
+    c.floor(rid, "awaits that start the invoked child", len(starts), 1)
+    from sa.util import assignments_to
+    for st in starts:
+        sn = cfg_node_of(f, st)
+        for h in sorted(handles):
+            binds = [n for a in assignments_to(f, h) if isinstance(a, ast.Assign) and not (isinstance(a.value, ast.Constant) and a.value.value is None)
+                     for n in g.nodes_of(a) if n not in sn]
+            ok = bool(binds) and all(g.always_before(binds, n, follow_exc=False) for n in sn)
+            c.ob(rid, ok, f, f"handle-bound-before-start:{h}",
+                 f"'{h}' refers to the child before its start() is awaited" if ok else
+                 f"'{h}' (the handle the finally / cancellation handler uses to stop the child) is bound only when the await that starts the "
+                 f"child returns: if the invoking state is left or the parent stopped while the child's start() is suspended, the handler "
+                 f"sees None and the child interpreter keeps running", st)
+        regs = [n for w in attr_writes(f) if w.attr == "_actors" and w.op == "subscript" for n in g.nodes_of(w.node)]
+        ok = bool(regs) and all(g.always_before(regs, n, follow_exc=False) for n in sn)
+        c.ob(rid, ok, f, "registered-before-start",
+             "the child is in self._actors before its start() is awaited (stop() sweeps it)" if ok else
+             "the invoked child is not registered in self._actors before its start() is awaited: parent.stop() during that await does not find it", st)
